@@ -23,9 +23,12 @@ class _Canon:
     def __init__(self, f, verts, point):
         self.f, self.verts, self.point = f, verts, point       # verts: {text: 'A'|'B'|'C'}; point: text of P or None (origin)
         self.defs = {}
+        from ..core.astutil import assign_pairs
         for st in ast.walk(f.node):
-            if isinstance(st, ast.Assign) and len(st.targets) == 1 and isinstance(st.targets[0], ast.Name):
-                self.defs.setdefault(st.targets[0].id, []).append(st.value)
+            if isinstance(st, ast.Assign):
+                for t_, v_ in assign_pairs(st):              # `d4_d3, d5_d6 = d4 - d3, d5 - d6` defines both
+                    if isinstance(t_, ast.Name):
+                        self.defs.setdefault(t_.id, []).append(v_)
 
     def c(self, e, depth=0):
         t = u(e)
